@@ -21,6 +21,21 @@ for p in props:
     ax = len(th) - closed
     out.append(f"| {pid} | {e['level']} | {len(th)} ({closed} closed, {ax} with stdlib axioms/primitives) | {e['wall_s']:.0f} | {c['evaluations']} | {c['distinct_nontrivial']} | {c['disagreements']} | {', '.join(c.get('known_findings_hit', {}).keys()) or '-'} |")
 out.append("")
+out.append("### 8.1b What each check proves and how it is tied to the code (from harness/registry.d and coq/Props)\n")
+import re as _re
+for p in props:
+    pid = p["id"]
+    if pid not in claimed:
+        na = [x for x in man.get("not_applicable", []) if x["property_id"] == pid]
+        out.append(f"* **{pid}** - not claimed: {na[0]['reason'] if na else ''}")
+        continue
+    c = claimed[pid]
+    pf = V / "coq" / "Props" / f"{pid}.v"
+    names = _re.findall(r"^Theorem\s+([\w']+)", pf.read_text(), flags=_re.M) if pf.exists() else []
+    out.append(f"* **{pid}** ({c['level_claimed']['category']}) - {c['level_claimed']['text']}  ")
+    out.append(f"  Theorems: {', '.join('`'+n+'`' for n in names)}.  ")
+    out.append(f"  Assumed / partial: {c['level_note']}")
+out.append("")
 out.append("### 8.2 Repairs committed to /repo (`fix:` commits, each re-found by its check first) and open findings\n")
 log = subprocess.run(["git", "-C", "/repo", "log", "--reverse", "--format=%h %s"], capture_output=True, text=True).stdout.splitlines()
 fixes = [l for l in log if l.split(" ", 1)[1].startswith("fix:")]
